@@ -224,6 +224,10 @@ func msetPayload(c *Ctx) []byte {
 		return nil
 	case 2: // non-message payload
 		return c.Bytes(1 + c.Intn(6))
+	case 4: // long payload (length prefixes of two and three bytes once chunks are merged)
+		n := []int{60, 100, 127, 128, 200, 8000, 16383, 16384}[c.Intn(8)]
+		b = protowire.AppendTag(b, protowire.Number(4+c.Intn(60)), protowire.BytesType)
+		return protowire.AppendBytes(b, c.Bytes(n))
 	case 3: // number above MaxValidNumber at top level
 		b = protowire.AppendVarint(b, protowire.EncodeTag(1<<29+protowire.Number(c.Intn(3)), protowire.VarintType))
 		return append(b, 1)
